@@ -518,6 +518,11 @@ func (eng *Engine) checkContract(u *FuncUnit) {
 		eng.precallSites = nil
 		eng.localClause = ""
 	}
+	if u.C.PanicsWhen != nil {
+		eng.localClause = "panics:when"
+		eng.checkClause(u.Pkg, u.C.PanicsWhen, u.Decl.Body.Rbrace, u, false)
+		eng.localClause = ""
+	}
 	for _, pa := range u.C.PreAssigns {
 		eng.localClause = "preassign:" + pa.Cl.Label
 		eng.checkClause(u.Pkg, pa.Cl, u.Decl.Body.Rbrace, u, false)
